@@ -2445,7 +2445,18 @@ func ruleArgsNamesake(c *Ctx, rule string, pkgs []*packages.Package, min int) {
 						continue
 					}
 					checked++
-					if want != i && !(sig.Variadic() && i >= sig.Params().Len()-1) {
+					// a misplacement only counts when the parameter of that name receives another accessor of the SAME
+					// receiver (a swap within one config object); previous.Location() passed as againstLocation next to
+					// current.Location() is two objects, not a slip
+					sameRecv := false
+					if want < len(call.Args) {
+						if oc, ok := ast.Unparen(call.Args[want]).(*ast.CallExpr); ok && len(oc.Args) == 0 {
+							if osel, ok := ast.Unparen(oc.Fun).(*ast.SelectorExpr); ok && identObj(info, osel.X) != nil && identObj(info, osel.X) == identObj(info, sel.X) {
+								sameRecv = true
+							}
+						}
+					}
+					if want != i && sameRecv && !(sig.Variadic() && i >= sig.Params().Len()-1) {
 						bad = append(bad, fmt.Sprintf("%s() passed as parameter %d (%s), the parameter of that name is %d", sel.Sel.Name, i, sig.Params().At(minInt(i, sig.Params().Len()-1)).Name(), want))
 					}
 				}
